@@ -13,7 +13,7 @@ def run(ctx):
     else:
         st = vlib.run_tlc(ctx, "MC_Purge.tla", "MC_Purge_quick.cfg", workers=12, timeout=900)
     vlib.require_tlc_ok(st, "MC_Purge")
-    cases = gen_purge(ctx, "exact.ndjson", sample_num=None if ctx.thorough else 700, exact_only=True)
+    cases = gen_purge(ctx, "exact.ndjson", sample_num=None if ctx.thorough else 160, exact_only=True)
     if not ctx.thorough:
         lines = open(cases).read().splitlines()[:110]
         # plus complete indexes of more than ten chunks extended by a resumed build (seed-dependent selection)
